@@ -285,11 +285,35 @@ class col_contents_modified:
 SIZERAW = Tup(Int(0, 2), Dim, Dim)
 
 
+class LazySize(V.Sym):
+    """A size tuple () / (cols,) / (cols, rows) whose arity is symbolic: kept as the (arity, cols, rows) triple and
+    decoded (a three-way fork) only where it is handed to a child (pyvc.protocol.force_lazy) or compared."""
+
+    def __init__(self, raw):
+        self.raw = raw
+
+    def py_force(self, st):
+        k, c, r = self.raw
+        j = st.choose([k == 0, k == 1, k == 2])
+        return ((), (c,), (c, r))[j]
+
+    def __repr__(self):
+        return f"LazySize{self.raw!r}"
+
+
 def decode_size(raw):
-    """The size tuple an (arity, cols, rows) triple stands for (forks over the arity)."""
+    return LazySize(raw)
+
+
+def size_is(size, raw):
+    """The concrete-arity size tuple `size` is the one the (arity, cols, rows) triple stands for (no fork)."""
+    size = getattr(size, "raw", size)
+    if isinstance(size, tuple) and len(size) == 3 and isinstance(raw, tuple) and size is raw:
+        return True
     k, c, r = raw
-    j = cur().choose([k == 0, k == 1, k == 2])
-    return ((), (c,), (c, r))[j]
+    if isinstance(size, LazySize):
+        return both(*[eq(x, y) for x, y in zip(size.raw, raw)])
+    return both(k == len(size), *[x == y for x, y in zip(size, (c, r))])
 
 
 def _gcs_facts(old, a, widths, heights, raw, i):
@@ -308,10 +332,6 @@ def _gcs_facts(old, a, widths, heights, raw, i):
     rows1 = W.call_quiet(st, child, "rows", dict(size=(c,), focus=foc))
     pack0 = W.call_quiet(st, child, "pack", dict(size=(), focus=foc))
     yield "height-is-what-the-child-renders-at-that-size", implies(w_i > 0, h_i == ite(k == 2, r, ite(k == 1, rows1, pack0[1])))
-
-
-class _GcsResult:
-    pass
 
 
 @contract(CO + "Columns.get_column_sizes", property=(), assumed=True, deterministic=True,
@@ -350,6 +370,9 @@ class col_gcs:
                 try:
                     for _label, fml in _gcs_facts(old, a, widths, heights, raw, i):
                         cur().assume(fml)
+                    if cur().ghost.get("columns_all_visible"):
+                        # the caller's fit precondition "every displayed column has a positive width", instantiated at i
+                        cur().assume(implies(both(0 <= i, i < Q.seq_len(widths)), Q.seq_get(widths, i) > 0))
                 finally:
                     busy.pop()
 
